@@ -115,7 +115,10 @@ def run(prog: Program, rep, thorough: bool) -> None:
     alt_q = C.mk_quantity(ev, st, prog, 'Distance', hft * 12, 'Foot')
 
     def in_unit(q, unit, st_):
-        return ev.call_value(prog.find_method(q.cls, 'get_in'), [C.enum_val(prog, unit)], self_val=q, st=st_)[0]
+        raw_ = st_.heap[q.oid].get('_value') if isinstance(q, Inst) else None
+        if not isinstance(raw_, Scalar):
+            raise AnalysisError(f'quantity without a single magnitude: {raw_!r}')
+        return Scalar(C.read_raw_in(ev, prog, q.cls.name, raw_, unit))
     # standard temperature
     stf = prog.func(C.M_COND, 'Atmo.standard_temperature')
     rep.saw(stf)
